@@ -215,7 +215,8 @@ impl<'a, F: IVP> SolOut for DefaultSolOut<'a, F> {
                             let mut e = d;
 
                             for _ in 0..MAXITER {
-                                if fb * fc > 0.0 {
+                                // Same strict sign (the product fb * fc would underflow to 0 for tiny event values)
+                                if (fb > 0.0 && fc > 0.0) || (fb < 0.0 && fc < 0.0) {
                                     c = a;
                                     fc = fa;
                                     d = b - a;
